@@ -9,7 +9,10 @@ cd coq
 coq_makefile -f _CoqProject -o Makefile 2>&1 | grep -v "conda.cli.condarc" || true
 timeout 3400 make -j16 2>&1 | grep -v "conda.cli.condarc" | tail -40
 test -f Extract/Extract.vo
+test -f Extract/ExtractSpec.vo
 cd ../runner
 ./build.sh
 test -x modelrun
+./build_spec.sh
+test -x specrun
 echo "setup ok"
